@@ -168,6 +168,15 @@ fn main() {
         for k in picks {
             run_case(&mut rec, &json!({"d": d, "by": [offsets[k].0, offsets[k].1]}));
         }
+        // right-aligned texts moved so that their anchor is the last but one column of the coordinate range (every pixel
+        // of such a text lies left of the anchor; a text measured AT its anchor would not fit)
+        // (not the input class of the open finding D12 - colourless text in a spaced font returns a position
+        // `spacing` pixels too far right, which does not exist here; D12 is reported by C14 / C15)
+        let d12 = d["tc"] == -1 && d["bc"] == -1 && d["font"].as_str().map_or(false, |f| f.starts_with("spaced:"));
+        if d["kind"] == "text" && d["al"] == 2 && n % 2 == 0 && !d12 {
+            let px = i(&d["pos"][0]) as i32;
+            run_case(&mut rec, &json!({"d": d, "by": [i32::MAX - 1 - px, 3 - (n % 7) as i32]}));
+        }
         // "origin alignment": the offset that moves the bounding box's corner onto (0, 0) / (-1, 0) / (0, -1) / (-1, -1)
         // (code that treats the coordinate 0 specially - empty ranges 0..0, sign tests - shows when a drawable
         // touches the origin, which fixed offsets never arrange)
